@@ -156,4 +156,81 @@ theorem restore_save_list (s : Str) (hs : StrOK s) (j : Ser) (H : List Node → 
     rfl
 end
 
+/-! ### what `save` hands to the packers is what `Stored` asks for (fresh repository: nothing is filtered) -/
+
+def noTree : Id → Bool := fun _ => false
+
+mutual
+theorem save_trees_id (H : List Node → Id) (hash : Bytes → Id) (chunks : Bytes → List Bytes) (hasTree : Id → Bool) :
+    ∀ (t : STree), ∀ p ∈ (save H hash chunks hasTree t).trees, p.1 = H p.2
+  | .leaf n d => by
+    intro p hp
+    by_cases hk : n.kind = .file <;> simp [save, hk] at hp
+  | .dir n cs => by
+    intro p hp
+    simp only [save] at hp
+    split at hp
+    · exact saveL_trees_id H hash chunks hasTree cs p hp
+    · rcases List.mem_append.mp hp with hp | hp
+      · exact saveL_trees_id H hash chunks hasTree cs p hp
+      · simp only [List.mem_singleton] at hp; subst hp; rfl
+theorem saveL_trees_id (H : List Node → Id) (hash : Bytes → Id) (chunks : Bytes → List Bytes) (hasTree : Id → Bool) :
+    ∀ (ts : List STree), ∀ p ∈ (saveL H hash chunks hasTree ts).trees, p.1 = H p.2
+  | [] => by intro p hp; simp [saveL] at hp
+  | t :: ts => by
+    intro p hp
+    simp only [saveL] at hp
+    rcases List.mem_append.mp hp with hp | hp
+    · exact save_trees_id H hash chunks hasTree t p hp
+    · exact saveL_trees_id H hash chunks hasTree ts p hp
+end
+
+mutual
+theorem stored_of_saved (s : Str) (j : Ser) (H : List Node → Id) (hash : Bytes → Id) (chunks : Bytes → List Bytes)
+    (getTree getData : Id → Option Bytes) : ∀ (t : STree),
+    (∀ p ∈ (save H hash chunks noTree t).trees, getTree p.1 = some (treeBytes s j p.2)) →
+    (∀ c ∈ (save H hash chunks noTree t).chunks, getData (hash c) = some c) →
+    t.Stored s j H hash chunks noTree getTree getData
+  | .leaf n d => by
+    intro _ hc
+    simp only [STree.Stored]
+    intro hk c hcm
+    exact hc c (by simpa [save, hk] using hcm)
+  | .dir n cs => by
+    intro ht hc
+    simp only [STree.Stored]
+    simp only [save, noTree, Bool.false_eq_true, if_false] at ht hc
+    refine ⟨ht (_, _) (List.mem_append_right _ (List.mem_singleton.mpr rfl)), ?_⟩
+    exact storedL_of_saved s j H hash chunks getTree getData cs
+      (fun p hp => ht p (List.mem_append_left _ hp)) hc
+theorem storedL_of_saved (s : Str) (j : Ser) (H : List Node → Id) (hash : Bytes → Id) (chunks : Bytes → List Bytes)
+    (getTree getData : Id → Option Bytes) : ∀ (ts : List STree),
+    (∀ p ∈ (saveL H hash chunks noTree ts).trees, getTree p.1 = some (treeBytes s j p.2)) →
+    (∀ c ∈ (saveL H hash chunks noTree ts).chunks, getData (hash c) = some c) →
+    StoredL s j H hash chunks noTree getTree getData ts
+  | [] => fun _ _ => trivial
+  | t :: ts => by
+    intro ht hc
+    simp only [saveL] at ht hc
+    exact ⟨stored_of_saved s j H hash chunks getTree getData t
+        (fun p hp => ht p (List.mem_append_left _ hp)) (fun c hcm => hc c (List.mem_append_left _ hcm)),
+      storedL_of_saved s j H hash chunks getTree getData ts
+        (fun p hp => ht p (List.mem_append_right _ hp)) (fun c hcm => hc c (List.mem_append_right _ hcm))⟩
+end
+
+/-- **Snapshot round trip over a faithful blob store.**  If every tree blob and every chunk the archive of the forest
+produced reads back by its id, restoring from the root id gives back the forest: every name, type, link target,
+metadata record and file content, directories to any depth. -/
+theorem restore_of_saved (s : Str) (hs : StrOK s) (j : Ser) (H : List Node → Id) (hash : Bytes → Id)
+    (chunks : Bytes → List Bytes) (hch : ∀ d, (chunks d).flatten = d)
+    (getTree getData : Id → Option Bytes) (order : List Write → List Write) (ho : ∀ l w, w ∈ order l ↔ w ∈ l)
+    (src : List STree) (hwf : WFL src)
+    (hroot : getTree (H (saveL H hash chunks noTree src).nodes) = some (treeBytes s j (saveL H hash chunks noTree src).nodes))
+    (ht : ∀ p ∈ (saveL H hash chunks noTree src).trees, getTree p.1 = some (treeBytes s j p.2))
+    (hc : ∀ c ∈ (saveL H hash chunks noTree src).chunks, getData (hash c) = some c) :
+    restoreTrees s j getTree getData order (depthL src + 1) (H (saveL H hash chunks noTree src).nodes) = some src := by
+  have hst := storedL_of_saved s j H hash chunks getTree getData src ht hc
+  simp only [restoreTrees, loadTree_treeBytes s hs j getTree _ _ hroot]
+  exact restore_save_list s hs j H hash chunks hch noTree getTree getData order ho src hwf hst (depthL src) (Nat.le_refl _)
+
 end Rustic.Snapshot
